@@ -69,6 +69,7 @@ PROBES = {
         "memory-measured",
         "corrupted-hex-or-srec-rejected",
         "canary-identified-after-faulty-history",
+        "generated-valid-image",
     ]
 }
 
@@ -162,6 +163,10 @@ def plan(prop, tier, seed):
             n += sg[4] - sg[3]
     # fault-free identification of every base
     specs.append({"kind": "fault-free", "seed": run_seed(seed, prop, tier + "-ff", 0)})
+    # fault-free identification of generated valid HEX / SREC images of many sizes (the formats
+    # without a magic number are tried after COFF, which has none either)
+    for i in range(4 if tier == "quick" else 24):
+        specs.append({"kind": "valid-variants", "seed": run_seed(seed, prop, tier + "-vv", i), "cases": 110 if tier == "quick" else 300})
     for s in specs:
         s["rlimit_as"] = 6 << 30
     return specs
@@ -480,7 +485,11 @@ def one_case(case, st, measure_mem):
     """-> (outcome, violation or None, events)"""
     import amoco.system.core as C
 
-    base = BASES.get(case["base"]) if "base" in case else bytes.fromhex(case["data"])
+    if "gen" in case:
+        base = F.gen_valid(case["gen"])
+        st.hit("probe:generated-valid-image")
+    else:
+        base = BASES.get(case["base"]) if "base" in case else bytes.fromhex(case["data"])
     if base is None:
         st.hit("unknown-base")
         return "skipped", None, 0, 0, 0
@@ -719,6 +728,27 @@ def run(spec):
             pos[0] += 1
             return {"op": "case", "base": n, "faults": [], "route": route, "mem": True, "valid": is_valid_base(n)}
 
+    elif spec["kind"] == "valid-variants":
+        left = [spec.get("cases", 100)]
+
+        def g(r, _):
+            if left[0] <= 0:
+                return None
+            left[0] -= 1
+            kind = r.choice(["hex", "hex", "srec"])
+            gen = {
+                "kind": kind,
+                "seed": r.getrandbits(32),
+                # small images, and the sizes at which whole tables of a header-less format fit
+                "size": r.choice([r.randint(1, 600), r.randint(3000, 7000), r.randint(3000, 7000), r.randint(7000, 20000)]),
+                "reclen": r.choice([16, 16, 16, 32, 8, 20]),
+                "eol": r.choice(["\n", "\n", "\r\n"]),
+                "style": r.choice(["avr", "avr", "random"]),
+            }
+            if kind == "srec":
+                gen["name"] = r.choice(["HDR", "BOOTLOADER", "fw", "application.s19"])
+            return {"op": "case", "gen": gen, "faults": [], "route": r.choice(["path", "bytes"]), "valid": True}
+
     else:
         g = None
     if g is not None and spec["kind"] in ("random", "enum-field", "enum-trunc"):
@@ -757,7 +787,7 @@ def run(spec):
         outcome, v, events, changed, size = one_case(case, st, mem)
         maxev = max(maxev, events)
         d = EventLog()
-        d.event(case.get("base") or case.get("data"), case.get("faults"), case.get("route"), outcome)
+        d.event(case.get("base") or case.get("data") or case.get("gen"), case.get("faults"), case.get("route"), outcome)
         wlog.event(d.digest())
         st.hit("cases")
         if (changed >= 1 or not case.get("faults")) and events >= 200:
